@@ -19,6 +19,8 @@ P = {
              note="Sliding lookups summarised by the geometric ray walk that C18 proves equal to GetAttacksBb. GivesCheck compared for legal moves only (a king 'checking' a king is not defined). Move predicates: 16384 concrete (from,to,type) cases, quick 96 by seed. AttacksTo: see harness/attacks."),
  "C10": dict(ref="§4 C10", text="CheckRepetitions(n) == (#earlier equal positions >= n) for every history of length <= 16 (quick) / 40 (thorough) with symbolic keys and clocks; HasInsufficientMaterial on symbolic piece counts 0..10 per kind and colour; clock update is C02's obligation",
              note="Repetition: positions identified with 64-bit keys (collisions excluded as the property states); assumes three game-history facts (clock steps, parity, no reset between equal positions) that follow from C02."),
+ "C01": dict(ref="§4 C01", text="lemma L1: each of the four generators (pawns, king, officers, castling) in each mode emits an arbitrary target move exactly [rules allow it and it is in the generator's class] times, on a fully symbolic well-formed position, with the promotions-as-non-quiet switch symbolic (512 cases = generator x mode x target origin square; quick 128 by seed); L2 legality filter = C09; composition/perft lemmas see level_note",
+             note="Membership formulation with PushBack replaced by a counting observer; bit-scan loops executed as 64 guarded iterations (licensed by C18's PopLsb lemma); sliding lookups summarised by C18. King-capture targets additionally assume the side not to move is not in check (legal positions). Perft equality follows from L1+L2+C02/C03 by induction on depth; the perft driver itself is not yet encoded."),
 }
 NA = {}
 for i in range(1,21):
